@@ -7,7 +7,7 @@ import (
 
 func main() {
 	hx.Main("c08", func(cfg *hx.RunCfg) (*hx.Result, error) {
-		res, err := protox.RunCrash(cfg, 10, 80, 10)
+		res, err := protox.RunCrash(cfg, 10, 40, 10)
 		if res != nil {
 			res.Imports = []string{"Lib.Bytes", "Proto", "ProtoCrash", "Corr.Proto", "Corr.C08"}
 			res.CaseType = "crashcase"
